@@ -12,7 +12,8 @@ SPEC = dict(
          'one accept/refuse comparison was made (always). '
          'Further (block signer): KSI_BlockSigner_close, every leaf signature requested twice, leaves of level 200..255 after two level-0 leaves (refused or accepted, the block still closes unless the root sits at level 255). '
          'Tree builder parts h (a metadata leaf too large to be hashed, offered after an odd number of leaves, followed by 0..3 leaves) and p (leaf processors: two sibling-adding processors on / off, a refusing processor first or last, every refused position of 1..5 leaves). '
-         'Block signer with honest replies that carry no calendar chain / a calendar chain without aggregation time element.',
+         'Block signer with honest replies that carry no calendar chain / a calendar chain without aggregation time element. '
+         'Block signer: signatures kept beyond the signer, its handles and the document hashes still verify for their own document only and serialize to the same bytes.',
     bounds=dict(
         quick='uniform: ALL leaf counts 1..64 at level 0 x max level {unset,1..8,255} and x 5 hash algorithms, counts 1..16 at levels {1,250} x max '
               '{unset,1,2,3,8,255,level+2,level+3}; mixed: ALL sequences of length <= 5 over leaf levels {0,1,2,5,253,254,255} x max level '
